@@ -283,6 +283,7 @@ pub fn rng_plan(rng: &mut Rng, sw: &Swarm) -> RngPlan {
         seed: rng.next_u64(),
         windows: vec![],
         try_fill_fails: rng.chance(1, 8),
+        try_fill_fails_after: if rng.chance(1, 4) { Some(rng.range(1, 60)) } else { None },
     };
     if sw.en_rng && rng.chance(1, 2) {
         let n = rng.range(1, 2);
@@ -388,12 +389,14 @@ pub fn pool_op(rng: &mut Rng, c: &Corpus, sw: &Swarm, n: usize, focus: &str) -> 
                 EOp::FromRandomBytes(hex(&b))
             }
             2 => {
-                let l = rng.range(1, 4) as usize;
-                EOp::NormalizeBatch((0..l).map(|_| idx(rng, n)).collect(), rng.usize_below(l))
+                let l = if rng.chance(1, 6) { rng.range(60, 140) } else { rng.range(1, 4) } as usize;
+                let k = if l > 8 && rng.chance(1, 2) { (l / 64) * 64 % l } else { rng.usize_below(l) };
+                EOp::NormalizeBatch((0..l).map(|_| idx(rng, n)).collect(), k)
             }
             _ => {
-                let l = rng.range(1, 4) as usize;
-                EOp::BatchConvert((0..l).map(|_| idx(rng, n)).collect(), rng.usize_below(l))
+                let l = if rng.chance(1, 6) { rng.range(60, 140) } else { rng.range(1, 4) } as usize;
+                let k = if l > 8 && rng.chance(1, 2) { (l / 64) * 64 % l } else { rng.usize_below(l) };
+                EOp::BatchConvert((0..l).map(|_| idx(rng, n)).collect(), k)
             }
         },
         _ => match rng.below(3) {
